@@ -64,7 +64,9 @@ func (c tcpCase) spec() tcpx.Spec {
 	case "class":
 		first = tcpx.ConnSpec{Class: classNames[c.A%len(classNames)], Cipher: c.C, Up: 9, Down: 9, Var: c.B}
 	}
-	return tcpx.Spec{Conns: []tcpx.ConnSpec{first, follow}, AcceptErr: c.Kind == "class" && c.B%2 == 1}
+	// odd variants: one transient accept error first; every fourth case goes through a shared
+	// listener of a ListenerManager (its accept goroutine must survive the error too)
+	return tcpx.Spec{Conns: []tcpx.ConnSpec{first, follow}, AcceptErr: c.Kind == "class" && c.B%2 == 1, Shared: c.Kind == "class" && c.B%4 >= 2}
 }
 
 var classNames = []string{"ok", "cipher", "bad-addr", "private", "refused", "relay-client", "relay-target"}
@@ -165,6 +167,7 @@ func gridS() []tcpx.Spec {
 		tcpx.Spec{Concurrent: true, Conns: []tcpx.ConnSpec{raw, ok}},
 		tcpx.Spec{Concurrent: true, Conns: []tcpx.ConnSpec{{Class: "relay-target", Cipher: 2}, ok}},
 		tcpx.Spec{Concurrent: true, Conns: []tcpx.ConnSpec{{Class: "refused", Cipher: 3, Up: 3}, ok}, AcceptErr: true},
+		tcpx.Spec{Concurrent: true, Conns: []tcpx.ConnSpec{{Class: "cipher", Cipher: 0}, ok}, AcceptErr: true, Shared: true},
 	)
 	return out
 }
